@@ -33,14 +33,20 @@ def run(job):
                1e-7, 1.7976931348623157e308, 5e-324, -0.0, 1e21, 0.0005,
                decimal.Decimal("0.1"), decimal.Decimal("-3.25E+5"),
                decimal.Decimal("1E-30")]
-    job.bound = (f"{len(units)} registered units x {len(numbers)} numbers of "
+    # standard-library decimals with more significant digits than the context
+    # precision (28): context-dependent operations on them would round
+    long_std = [decimal.Decimal("100000000000000000000000000000000000001"),
+                decimal.Decimal(0.1),
+                decimal.Decimal("-1.0000000000000000000000000000000001")]
+    job.bound = (f"{len(units)} registered units x {len(numbers) + len(long_std)} numbers of "
                  f"every accepted kind x 3 factories; text round trip; "
                  f"malformed strings")
     for u in units:
         if not job.mine():
             continue
         cls = u.qty_cls
-        for x in (numbers if not quick else numbers[::2] + numbers[1:4]):
+        for x in ((numbers if not quick else numbers[::2] + numbers[1:4])
+                  + long_std):
             exact = O.F(x)
             exp = O.q_round(exact, u)
             made = []
